@@ -11,6 +11,21 @@ VERIF = os.path.dirname(os.path.dirname(os.path.abspath(__file__)))
 SEEDED = os.path.join(VERIF, "seeded")
 
 
+def record(d, meta, cmd, r, checks):
+    """meta.json also says what was run on the change and what came out."""
+    meta["what_i_ran"] = {
+        "command": cmd,
+        "in": "a scratch worktree of /repo HEAD with the patch applied (removed afterwards); /repo itself untouched",
+        "patch_applies": r.get("applies"),
+        "existing_tests_passed_with_change": r.get("tests_passed"),
+        "existing_tests_failed": r.get("tests_failed"),
+        "demo_exit_without_change": r.get("demo_without"),
+        "demo_exit_with_change": r.get("demo_with"),
+        "checks": {k: {"exit": v.get("exit"), "first_signatures": v.get("signatures", [])[:3], "summary": v.get("summary")} for k, v in checks.items()},
+    }
+    json.dump(meta, open(os.path.join(d, "meta.json"), "w"), indent=1)
+
+
 def main():
     want = sys.argv[1:]
     path = os.path.join(SEEDED, "RESULTS.json")
@@ -38,6 +53,7 @@ def main():
             }
             print(name, "silent (as it must be)" if results[name]["silent"] else f"FALSE ALARM {exits} {results[name]['signatures']}", flush=True)
             json.dump(results, open(path, "w"), indent=1, sort_keys=True)
+            record(d, meta, f"tools/mutant.py seeded/{name} --props {','.join(meta['checks'])}", r, r.get("checks", {}))
             continue
         pid = meta["breaks"]
         p = subprocess.run([os.path.join(VERIF, "tools", "mutant.py"), d, "--props", pid], capture_output=True, text=True)
@@ -60,6 +76,7 @@ def main():
         }
         print(name, "caught" if results[name]["caught"] else f"NOT CAUGHT (exit {c.get('exit')})", [(s["oracle"], s["locus"]) for s in results[name]["signatures"][:2]], flush=True)
         json.dump(results, open(path, "w"), indent=1, sort_keys=True)
+        record(d, meta, f"tools/mutant.py seeded/{name} --props {pid}", r, {pid: c})
 
 
 main()
